@@ -769,3 +769,36 @@ Theorem C19_buf_split_no_duplicates : forall delims flags max_sections l,
 Proof. exact bufs_split_no_duplicates. Qed.
 Print Assumptions C19_buf_split_no_duplicates.
 Local Close Scope Z_scope.
+
+(* ---- the hand model of the byte-level reads agrees with the text generated from the C
+   source (static helpers inlined, data region as index -> byte): same status, cursor, value ---- *)
+From CAres.Dsa Require Import Buf_gen_agree.
+From CAres.Gen Require Import LeafFns.
+
+Theorem C19_buf_fetch_be16_agrees_generated : forall b old,
+  buf_inv b -> buf_bytes_ok (buf_remaining b) ->
+  exists st b' v v',
+    buf_fetch_be16 b = Ok (st, b', v) /\
+    c_ares_buf_fetch_be16 (b2z (cb_hasdata b)) (cb_dlen b) (cb_off b) (buf_memf b) old
+      = Ok (st, cb_off b', v') /\
+    (st = ARES_SUCCESS -> v' = v) /\ (st <> ARES_SUCCESS -> v' = old /\ b' = b).
+Proof. exact buf_fetch_be16_agrees_generated. Qed.
+Print Assumptions C19_buf_fetch_be16_agrees_generated.
+
+Theorem C19_buf_peek_byte_agrees_generated : forall b old,
+  buf_inv b -> buf_bytes_ok (buf_remaining b) ->
+  exists st v v',
+    buf_peek_byte b = Ok (st, v) /\
+    c_ares_buf_peek_byte (b2z (cb_hasdata b)) (cb_dlen b) (cb_off b) (buf_memf b) old = Ok (st, v') /\
+    (st = ARES_SUCCESS -> v' = v) /\ (st <> ARES_SUCCESS -> v' = old).
+Proof. exact buf_peek_byte_agrees_generated. Qed.
+Print Assumptions C19_buf_peek_byte_agrees_generated.
+
+Theorem C19_buf_fetch_bytes_agrees_generated : forall b len,
+  buf_inv b -> (0 <= len < 2 ^ 62)%Z ->
+  exists st b' bytes,
+    buf_fetch_bytes b len = Ok (st, b', bytes) /\
+    c_ares_buf_fetch_bytes len (b2z (cb_hasdata b)) (cb_dlen b) (cb_off b) (buf_memf b)
+      = Ok (st, cb_off b').
+Proof. exact buf_fetch_bytes_agrees_generated. Qed.
+Print Assumptions C19_buf_fetch_bytes_agrees_generated.
